@@ -236,6 +236,39 @@ def h_tag_columns(sx):
     return got
 
 
+UNTAGGED_TEXT = u'''Feature: F
+  Scenario Outline: T <n>
+    Given a step
+    @smoke %s
+    Examples: A
+      | n |
+      | 1 |
+      | 2 |
+    @slow
+    Examples: B
+      | n |
+      | 3 |
+    Examples: C
+      | n |
+      | 4 |
+'''
+
+
+def h_untagged_outline(sx):
+    """An outline WITHOUT own tags: each row carries exactly the tags of its own Examples block; the template stays untagged."""
+    from behave.parser import parse_feature
+    extra = sx.choice("extra_tag", [u"", u"@x.y", u"@a=1"])
+    extra = extra if isinstance(extra, str) else extra.concretize()
+    f = parse_feature(UNTAGGED_TEXT % extra, filename="u.feature")
+    outline = f.run_items[0]
+    got = [[str(t) for t in sc.tags] for sc in outline.scenarios]
+    a = [u"smoke"] + ([extra[1:]] if extra else [])
+    exp = [a, a, [u"slow"], []]
+    sx.check(got == exp, "C06.tags=outline+examples", detail={"got": got, "expected": exp})
+    sx.check([str(t) for t in outline.tags] == [], "C06.template-unchanged", detail={"outline_tags": [str(t) for t in outline.tags]})
+    return got
+
+
 def h_history(sx):
     """After the examples tables are modified through the table API the expansion is rebuilt."""
     f, outline = _parse()
@@ -289,6 +322,8 @@ def jobs(tier, seed):
     js.append(Job("expand.plain-names", "props.c06:h_expand", {"block": 0, "row": 1, "schema": 0, "variant": "plain-names"},
                   reach=["C06.doc-string-substituted", "C06.step-table-substituted", "C06.template-unchanged"],
                   min_paths=1, cost=100, validate=40, closure=False))
+    js.append(Job("untagged-outline", "props.c06:h_untagged_outline", {}, reach=["C06.tags=outline+examples", "C06.template-unchanged"],
+                  min_paths=3, cost=10, validate="all", closure=False))
     js.append(Job("tag-columns", "props.c06:h_tag_columns", {}, reach=["C06.tags=outline+examples"], min_paths=4, cost=10,
                   validate="all", closure=False))
     js.append(Job("history", "props.c06:h_history", {"n": 2 if tier == "quick" else 3},
